@@ -31,7 +31,13 @@ Correspondence (model vs implementation, every run)
     size bound x all assignments of the seven scalar kinds, a conversion table (boundary scalars x all 27 dtypes) and
     random regular arrays;
   * (second deepening round) the bounds checks of `np.ndarray(shape, dtype, buffer, offset, strides)` and
-    `torch.as_strided` vs their model (`strided.check`), on random descriptions incl. out-of-bounds ones.
+    `torch.as_strided` vs their model (`strided.check`), on random descriptions incl. out-of-bounds ones;
+  * (third deepening round) conversion of Python floats / ints INTO the six 8-bit / 4-bit float types through `ir.tensor`
+    vs `IrVerif.PyTensor.encF8` (`pyt.castmany`): ALL 65,536 binary16 values per type + every value / midpoint / threshold
+    of the type + random binary32 / binary64 values; the model's value specification (`pyt.dec8`) vs ml_dtypes' decoding;
+    `Tensor(array, dtype)` acceptance vs `ctorAccepts` (`pyt.ctor`) over every array dtype x every code; BOOL storage bytes
+    0..255; lazily conjugated / negated torch views (D385), 2-D packed raw arrays (D386), float_data with signalling NaNs
+    built on the wire.
 
 Oracle (the property itself on the real objects, independent of the model): declared dtype and
 shape, nbytes = ceil(size*bitwidth/8), numpy() bits = the logical bits, tobytes()/tofile bytes =
@@ -158,6 +164,7 @@ THEOREMS = [
     "IrVerif.PyTensor.C04_pytensor_f8_sign",
     "IrVerif.PyTensor.C04_pytensor_f8_agree",
     "IrVerif.PyTensor.C04_ctor_accepts",
+    "IrVerif.PyTensor.C04_pytensor_f8_halfulp",
 ]
 ASSUMPTIONS = [
     "elements are modelled as bit patterns; numeric meaning of floats (NaN != NaN) is not modelled",
@@ -312,6 +319,24 @@ def bits_of_f64(v: float) -> int:
     return struct.unpack("<Q", struct.pack("<d", v))[0]
 
 
+def _float_data_bits(tp) -> list:
+    """The binary32 patterns stored in `float_data`, read from the WIRE form of a copy that keeps only that field
+    (reading the elements as Python floats quiets signalling NaNs; numpy is not involved here)."""
+    n = len(tp.float_data)
+    if not n:
+        return []
+    t2 = type(tp)()
+    t2.CopyFrom(tp)
+    for f in t2.DESCRIPTOR.fields:
+        if f.name != "float_data":
+            t2.ClearField(f.name)
+    wire = t2.SerializeToString()
+    body = wire[len(wire) - 4 * n:]
+    if len(wire) < 4 * n + 2 or wire[0] != 0x22:
+        return [bits_of_f32(v) for v in tp.float_data]
+    return [struct.unpack_from("<I", body, 4 * i)[0] for i in range(n)]
+
+
 def proto_json(tp) -> dict:
     """Canonical form of the data-carrying part of a TensorProto (the model's `Proto`)."""
     import onnx
@@ -330,7 +355,7 @@ def proto_json(tp) -> dict:
         "i32": [int(x) for x in tp.int32_data],
         "i64": [int(x) for x in tp.int64_data],
         "u64": [int(x) for x in tp.uint64_data],
-        "f32": [bits_of_f32(v) for v in tp.float_data],
+        "f32": _float_data_bits(tp),
         "f64": [bits_of_f64(v) for v in tp.double_data],
         "ext": ext,
     }
@@ -658,6 +683,7 @@ def build_reprs(ir, d, dims, xs, idx, workdir, torch_ok, item_extra=None):
         return tp
 
     protos = []
+    wire_f32: dict = {}  # id(proto built from wire bytes) -> the binary32 patterns written
     tp = tp_base()
     tp.raw_data = rb
     protos.append(("raw_data", tp))
@@ -699,7 +725,10 @@ def build_reprs(ir, d, dims, xs, idx, workdir, torch_ok, item_extra=None):
                     break
             tp = tp_base()
             tp.MergeFromString(b"\x22" + var + body)
-            if [bits_of_f32(v) for v in tp.float_data] == parts:
+            # (reading float_data element by element as Python floats quiets them again: the patterns are checked on the
+            # wire form, and handed to the model as they were written)
+            if len(tp.float_data) == len(parts) and body in tp.SerializeToString():
+                wire_f32[id(tp)] = list(parts)
                 protos.append(("float_data-wire", tp))
     if nm in ("DOUBLE", "COMPLEX128"):
         parts = xs if nm == "DOUBLE" else [p for x in xs for p in (x & M64, x >> 64)]
@@ -707,9 +736,15 @@ def build_reprs(ir, d, dims, xs, idx, workdir, torch_ok, item_extra=None):
         tp.double_data.extend(f64_of_bits(p) for p in parts)
         if [bits_of_f64(v) for v in tp.double_data] == parts:
             protos.append(("double_data", tp))
+    def pj(tp):
+        j = proto_json(tp)
+        if id(tp) in wire_f32:
+            j["f32"] = wire_f32[id(tp)]
+        return j
+
     for fname, tp in protos:
-        add(f"proto:{fname}", (lambda tp=tp: serde.TensorProtoTensor(tp)), proto_json(tp))
-    add("ir.tensor(proto)", (lambda tp=protos[idx % len(protos)][1]: ir.tensor(tp)), proto_json(protos[idx % len(protos)][1]))
+        add(f"proto:{fname}", (lambda tp=tp: serde.TensorProtoTensor(tp)), pj(tp))
+    add("ir.tensor(proto)", (lambda tp=protos[idx % len(protos)][1]: ir.tensor(tp)), pj(protos[idx % len(protos)][1]))
 
     # ---- external at several offsets, with and without trailing bytes
     combos = [(0, 0), (1, 0), (7, 3), (0, 3), (5, 0)]
@@ -2992,6 +3027,8 @@ def process_records(ctx: Ctx, recs: list, outs_iter) -> None:
         )
         for dk in rec["dests"]:
             ctx.count(f"destination={dk}")
+        if item["d"] == 9 and any(int(x) > 1 for x in item["xs"]):
+            ctx.count("bool_noncanonical_byte_records")  # observation D388: storage bytes 2..255, passed through verbatim
         for hk, hv in rec.get("hist", {}).items():
             ctx.count(f"{hk}={hv}")
         if rec.get("strided"):
